@@ -26,19 +26,20 @@ type call2 struct {
 }
 
 type CPS struct {
-	Names  map[string]string                   // Go expression key -> Lean expression (parameters, constants)
-	LenFn  map[string]string                   // key of the argument of len() / of a sliced or indexed value -> mapLen | strLen | listLen
-	Calls  map[string]func(args []string) string
-	Calls2 map[string]call2
-	Ret    func(e []ast.Expr) (string, error)  // renders `return …`
-	Types  map[string]string                   // Lean types of mutable / var-declared variables
-	mut    map[string]bool                     // variables assigned outside their declaring block
-	order  []string                            // declared variables, in declaration order (innermost last)
-	n      int
-	next   []string
-	brk    []string
-	scope  []map[string]bool
-	locals map[string]int // declared local names (count of live declarations)
+	Names   map[string]string // Go expression key -> Lean expression (parameters, constants)
+	LenFn   map[string]string // key of the argument of len() / of a sliced or indexed value -> mapLen | strLen | listLen
+	Calls   map[string]func(args []string) string
+	Calls2  map[string]call2
+	Ret     func(e []ast.Expr) (string, error) // renders `return …`
+	Types   map[string]string                  // Lean types of mutable / var-declared variables
+	GoTypes map[string]string                  // Go type expression (printed) -> Lean type, for `var x T` of other names
+	mut     map[string]bool                    // variables assigned outside their declaring block
+	order   []string                           // declared variables, in declaration order (innermost last)
+	n       int
+	next    []string
+	brk     []string
+	scope   []map[string]bool
+	locals  map[string]int // declared local names (count of live declarations)
 }
 
 var leanReserved = map[string]bool{"exists": true, "end": true, "from": true, "at": true, "have": true, "show": true,
@@ -68,6 +69,22 @@ func goKey(e ast.Expr) string {
 		return goKey(x.Fun) + "()"
 	case *ast.BasicLit:
 		return x.Value
+	}
+	return fmt.Sprintf("?%T", e)
+}
+
+func typeText(e ast.Expr) string {
+	switch x := e.(type) {
+	case *ast.Ident:
+		return x.Name
+	case *ast.SelectorExpr:
+		return typeText(x.X) + "." + x.Sel.Name
+	case *ast.StarExpr:
+		return "*" + typeText(x.X)
+	case *ast.ArrayType:
+		if x.Len == nil {
+			return "[]" + typeText(x.Elt)
+		}
 	}
 	return fmt.Sprintf("?%T", e)
 }
@@ -569,6 +586,15 @@ func (c *CPS) blk(stmts []ast.Stmt, k, ind string) (string, error) {
 		}
 		n := vs.Names[0].Name
 		t, ok := c.Types[n]
+		if !ok && vs.Type != nil {
+			t, ok = c.GoTypes[typeText(vs.Type)]
+			if ok {
+				if c.Types == nil {
+					c.Types = map[string]string{}
+				}
+				c.Types[n] = t
+			}
+		}
 		if !ok {
 			return "", fmt.Errorf("no Lean type configured for variable %s", n)
 		}
